@@ -298,6 +298,22 @@ theorem runtimeTry_fatal_clears (fuel : Nat) (b : Beh) (s : Vm) (hI : Inv s) (h0
     (runtimeTry fuel b s).2.jobQueue = [] ∧ (runtimeTry fuel b s).2.interrupted = false :=
   (runtimeTry_spec fuel b s hI).2 h h0
 
+/-- regression lemma about the mechanism BEFORE fix 404e270 (`defect:unwind-abort-in-recover`, design/C03.md): handleThrow reports
+`aborted` with the JS frame `tf` it stopped at still on the try stack, above the boundary's marker `m` (this is what
+`handleThrow_restores` says about `aborted`).  The model then unwinds for the uncatchable at the same boundary
+(`unwindAtMarker`), which pops both — as the code does since 404e270 (deferred recover in handleThrow).  Before, this
+happened only when the first handleThrow ran inside the run loop; when it ran inside a `recover()` the boundary merely
+ran its deferred `popTryFrame()` — and that leaves the boundary's own marker behind: -/
+theorem unwind_abort_in_recover_prefix_witness (tf m : TryFrame) (rest : List TryFrame) (s : Vm)
+    (h : s.tryStack = tf :: m :: rest) :
+    (popTryFrame s).tryStack = m :: rest ∧ (popTryFrame s).tryStack ≠ rest := by
+  have h1 : (popTryFrame s).tryStack = m :: rest := by simp [popTryFrame, h]
+  refine ⟨h1, ?_⟩
+  rw [h1]
+  intro hc
+  have := congrArg List.length hc
+  simp at this
+
 /-! ## non-vacuity -/
 
 /-- the hypotheses of the boundary theorems are satisfiable by non-trivial states: any state with a
